@@ -2,6 +2,7 @@ import HC.Proofs.TreeStore
 import HC.Proofs.Journal
 import HC.Proofs.Bitfield
 import HC.Spec.LogSpec
+import HC.Proofs.FormatLimits
 /-!
 C01, live part: every sequence of `append_batch` / `clear` / `get` / `has` / `info` calls on the model
 of the crate produces the observations of the abstract log (`LogSpec.Abs`).
@@ -260,7 +261,8 @@ inductive EntryStep (C : Crypto) : Abs → Entry → Abs → Prop
   | append (a : Abs) (batch : List Bytes) (nodes : List Node) (sig : Bytes) (fk : Nat) (hne : batch ≠ []) (hsig : sig.length = 64)
       (sound : ∀ n ∈ nodes, ∃ d o, n = nodeAt C (a.blocks ++ batch.toArray) d o ∧ (o + 1) * 2 ^ d ≤ a.blocks.size + batch.length)
       (compl : ∀ d o, a.blocks.size < (o + 1) * 2 ^ d → (o + 1) * 2 ^ d ≤ a.blocks.size + batch.length →
-        nodeAt C (a.blocks ++ batch.toArray) d o ∈ nodes) :
+        nodeAt C (a.blocks ++ batch.toArray) d o ∈ nodes)
+      (hcount : nodes.length ≤ 2 * batch.length + 64) :
       EntryStep C a { treeNodes := nodes, treeUpgrade := some ⟨fk, a.blocks.size, a.blocks.size + batch.length, sig⟩,
                       bitfield := some ⟨false, a.blocks.size, batch.length⟩ } (a.step (.append batch)).1
   | clear (a : Abs) (s e : Nat) (hse : s < e) :
@@ -430,7 +432,12 @@ theorem clear_shape (C : Crypto) (c : Core) (d : Disk) (a : Abs) (h : Rep C c d 
       ∧ Rep C c1 (d.applyAll j01) (a.step (.clear s e)).1
       ∧ (d.applyAll j01).tree = d.tree ∧ (d.applyAll j01).bitfield = d.bitfield
       ∧ c1.bitfield = c.bitfield.setRange s (e - s) false
-      ∧ c1.header.tree = c.header.tree ∧ c1.header.secret = c.header.secret ∧ c1.secret = c.secret := by
+      ∧ c1.header.tree = c.header.tree ∧ c1.header.secret = c.header.secret ∧ c1.secret = c.secret
+      ∧ c1.oplog = (Oplog.appendEntry c.oplog { bitfield := some ⟨true, s, e - s⟩ }).1
+      ∧ (d.applyAll j01).oplog = d.oplog.write (Spec.entriesOffset + c.oplog.entriesByteLength)
+          (frame (encEntry { bitfield := some ⟨true, s, e - s⟩ }) c.oplog.currentBit false)
+      ∧ c1.tree = c.tree
+      ∧ (∃ cc, c1.header = { c.header with contiguous := cc }) := by
   have hge : ¬ s ≥ e := by omega
   have hse : s < e := by omega
   have hsn : s < a.blocks.size := hv hse
@@ -539,7 +546,18 @@ theorem clear_shape (C : Crypto) (c : Core) (d : Disk) (a : Abs) (h : Rep C c d 
     have e2 := Journal.applyAll_other d ent.2 .bitfield (fun op hop => by rw [hj1 op hop]; decide)
     simp only [Disk.get] at e1 e2
     rw [e1, e2]
-  refine ⟨c1, ent.2 ++ j2, ?_, ?_, ?_, ?_, c1bf, ?_, ?_, c1sec⟩
+  have hd1op : (d.applyAll ent.2).oplog = d.oplog.write (Spec.entriesOffset + c.oplog.entriesByteLength)
+      (frame (encEntry { bitfield := some ⟨true, s, e - s⟩ }) c.oplog.currentBit false) := by
+    rw [← hent]
+    simp only [Oplog.appendEntry, applyAll_one]
+    have := Journal.apply_get d (SOp.write .oplog (Spec.entriesOffset + c.oplog.entriesByteLength)
+      (frame (encEntry { bitfield := some ⟨true, s, e - s⟩ }) c.oplog.currentBit false)) .oplog
+    simp only [SOp.store, ite_true, SOp.onFile, Disk.get] at this
+    exact this
+  have hd2op : ((d.applyAll ent.2).applyAll j2).oplog = (d.applyAll ent.2).oplog := by
+    have := Journal.applyAll_other (d.applyAll ent.2) j2 .oplog (fun op hop => by rw [hj2store op hop]; decide)
+    simpa [Disk.get] using this
+  refine ⟨c1, ent.2 ++ j2, ?_, ?_, ?_, ?_, c1bf, ?_, ?_, c1sec, ?_, ?_, c1tree, ?_⟩
   · rw [hstep, List.append_assoc]
   · rw [habs, hsplit]
     refine { writer := ?_, tree := ?_, nodes := ?_, mapwf := ?_, bits := ?_, heldLt := ?_, contig := ?_, data := hdata2, small := h.small }
@@ -564,6 +582,12 @@ theorem clear_shape (C : Crypto) (c : Core) (d : Disk) (a : Abs) (h : Rep C c d 
   · rw [hsplit]; exact hd2bf
   · rw [c1hdr]; split <;> rfl
   · rw [c1hdr]; split <;> rfl
+  · rw [← hc1, ← hent]
+  · rw [hsplit, hd2op]; exact hd1op
+  · rw [c1hdr]
+    split
+    · exact ⟨s, rfl⟩
+    · exact ⟨c.header.contiguous, rfl⟩
 
 theorem clear_refines (C : Crypto) (hC : HashWF C) (c : Core) (d : Disk) (a : Abs) (h : Rep C c d a) (s e : Nat)
     (hv : Valid a (.clear s e)) :
@@ -660,7 +684,14 @@ theorem append_shape (C : Crypto) (hC : HashWF C) (c : Core) (d : Disk) (a : Abs
       ∧ c1.bitfield = c.bitfield.setRange a.blocks.size batch.length true
       ∧ (SignWF C → EntryStep C a entry (a.step (.append batch)).1)
       ∧ c1.header.tree.length = a.blocks.size + batch.length ∧ (SignWF C → c1.header.tree.signature.length = 64)
-      ∧ c1.header.secret = c.header.secret ∧ c1.secret = c.secret := by
+      ∧ c1.header.secret = c.header.secret ∧ c1.secret = c.secret
+      ∧ c1.oplog = (Oplog.appendEntry c.oplog entry).1
+      ∧ (d.applyAll j01).oplog = d.oplog.write (Spec.entriesOffset + c.oplog.entriesByteLength)
+          (frame (encEntry entry) c.oplog.currentBit false)
+      ∧ c1.tree.fork = c.tree.fork
+      ∧ (∃ rh sg cc, c1.header = { c.header with tree := { c.header.tree with rootHash := rh, signature := sg, length := a.blocks.size + batch.length }, contiguous := cc }
+          ∧ (∃ l, rh = C.tree l) ∧ (SignWF C → sg.length = 64))
+      ∧ (SignWF C → a.blocks.size + batch.length < 2 ^ 62 → batch.length < 2 ^ 20 → U64 c.tree.fork → OplogBytes.EntryOK entry) := by
   obtain ⟨seed, hseed⟩ : ∃ seed, c.secret = some seed := Option.isSome_iff_exists.mp h.writer
   have hlen : c.tree.length = a.blocks.size := h.tree.length
   have hbytes : c.tree.byteLength = totalBytes a.blocks := h.tree.bytes
@@ -793,7 +824,39 @@ theorem append_shape (C : Crypto) (hC : HashWF C) (c : Core) (d : Disk) (a : Abs
     simp only [Disk.get] at this
     rw [this]; exact hd0bf
   have hT : c.tree.byteLength = psum a.blocks n := by rw [hbytes, ← psum_total]
-  refine ⟨c1, [SOp.write .data c.tree.byteLength batch.flatten] ++ ent.2, entry, ?_, ?_, ?_, ?_, ?_, ?_, ?_, ?_, ?_, c1sec⟩
+  have hcount : cs0.nodes.length ≤ 2 * batch.length + 64 := by
+    have hc := appendMany_count C batch c.tree.changeset
+    rw [hcs0] at hc
+    have hr : c.tree.changeset.roots.length ≤ 64 := by
+      have := congrArg List.length h.tree.roots
+      simp only [List.length_reverse, List.length_map] at this
+      rw [this]; exact rootsStack_length_log 64 _ h.small.1
+    have hrn : c.tree.changeset.rnodes = [] := rfl
+    simp only [hrn, List.length_nil, Nat.add_zero] at hc
+    simp only [Changeset.nodes, List.length_reverse]
+    omega
+  have hd0op : d0.oplog = d.oplog := by
+    rw [← hd0]
+    have := Journal.apply_get d (SOp.write .data c.tree.byteLength batch.flatten) .oplog
+    simpa [SOp.store, SOp.onFile, Disk.get] using this
+  have hd1op : (d0.applyAll ent.2).oplog = d.oplog.write (Spec.entriesOffset + c.oplog.entriesByteLength)
+      (frame (encEntry entry) c.oplog.currentBit false) := by
+    rw [← hent]
+    simp only [Oplog.appendEntry, applyAll_one]
+    have := Journal.apply_get d0 (SOp.write .oplog (Spec.entriesOffset + c.oplog.entriesByteLength)
+      (frame (encEntry entry) c.oplog.currentBit false)) .oplog
+    simp only [SOp.store, ite_true, SOp.onFile, Disk.get] at this
+    rw [this, hd0op]
+  have ht'fork : t'.fork = c.tree.fork := by
+    have hcm := hcommit
+    unfold Tree.commit at hcm
+    split at hcm
+    · cases hcm
+    · split at hcm
+      · cases hcm
+      · cases hcm
+        simp only [hup.1, ite_true, hup.2]
+  refine ⟨c1, [SOp.write .data c.tree.byteLength batch.flatten] ++ ent.2, entry, ?_, ?_, ?_, ?_, ?_, ?_, ?_, ?_, ?_, c1sec, ?_, ?_, ?_, ?_, ?_⟩
   · rw [hstep, List.append_assoc]
   · rw [habs, hsplit]
     refine { writer := ?_, tree := ?_, nodes := ?_, mapwf := ?_, bits := ?_, heldLt := ?_, contig := ?_, data := ?_, small := ?_ }
@@ -855,12 +918,52 @@ theorem append_shape (C : Crypto) (hC : HashWF C) (c : Core) (d : Disk) (a : Abs
   · intro hS
     rw [habs, hentry]
     have := EntryStep.append (C := C) a batch cs0.nodes sig c.tree.fork hne (hsiglen hS)
-      (fun x hx => sound x ((hadded x).mp hx)) (fun dd o h1 h2 => (hadded _).mpr (compl dd o h1 h2))
+      (fun x hx => sound x ((hadded x).mp hx)) (fun dd o h1 h2 => (hadded _).mpr (compl dd o h1 h2)) hcount
     rw [habs] at this
     exact this
   · rw [c1hdr, hhd2'.1, hhd1.1]
   · intro hS; rw [c1hdr, hhd2'.1, hhd1.2.1]; exact hsiglen hS
   · rw [c1hdr, hhd2'.2, hhd1.2.2]
+  · rw [← hc1, ← hent]
+  · rw [hsplit]; exact hd1op
+  · rw [c1tree]; exact ht'fork
+  · refine ⟨cs.hash.getD [], sig, hd2.contiguous, ?_, ?_, hsiglen⟩
+    · rw [c1hdr, ← hhd2]
+      have h1e : hd1 = { c.header with tree := { c.header.tree with rootHash := cs.hash.getD [], signature := sig, length := n + batch.length } } := by
+        have := congrArg Prod.snd heo
+        simp only [entryOf, hup.1, ite_true, hsigv, Option.getD_some, hcslen] at this
+        exact this.symm
+      rw [h1e]
+      simp only [updateContiguous]
+      split <;> (try split) <;> rfl
+    · rw [← hcs]; exact ⟨_, rfl⟩
+  · intro hS hsz62 hk20 hfk
+    rw [hentry]
+    have hU : ∀ x, x < 2 ^ 62 → U64 x := fun x hx => by unfold U64; omega
+    apply FormatLimits.appendEntry_ok
+    · refine ⟨by unfold U64; omega, fun x hx => ?_⟩
+      obtain ⟨dd, o, rfl, hb⟩ := sound x ((hadded x).mp hx)
+      refine ⟨?_, ?_, nodeAt_hash_len C hC _ _ _⟩
+      · -- the flat index of a full node below 2·length
+        have hi : Flat.index dd o < 2 * (a.blocks.size + batch.length) := by
+          rw [index_eq]
+          have hp := pow_pos' dd
+          have : (o + 1) * 2 ^ dd = o * 2 ^ dd + 2 ^ dd := by ring
+          have : o * (2 * 2 ^ dd) = 2 * (o * 2 ^ dd) := by ring
+          omega
+        simp only [nodeAt_index]; unfold U64; omega
+      · have h1 := nodeAt_length_le C bs' dd o
+        have h2 := psum_mono bs' (show (o + 1) * 2 ^ dd ≤ bs'.size by rw [hsize']; exact hb)
+        have := hv.2
+        simp only [bs'] at h1 h2 htot' ⊢
+        unfold U64; omega
+    · omega
+    · exact hfk
+    · exact hU _ (by omega)
+    · exact hU _ (by omega)
+    · exact hsiglen hS
+    · exact hU _ (by omega)
+    · exact hU _ (by omega)
 
 theorem append_refines (C : Crypto) (hC : HashWF C) (c : Core) (d : Disk) (a : Abs) (h : Rep C c d a) (batch : List Bytes)
     (hv : Valid a (.append batch)) :
@@ -893,7 +996,7 @@ theorem init_rep (C : Crypto) (pk sk : Bytes) :
   generalize hih : Oplog.insertHeader (Header.new pk (some sk)) 0 Spec.initialBits false = ih
   have hops : ∀ op ∈ ih.2, op.store = .oplog := by rw [← hih]; exact Journal.insertHeader_store _ _ _ _
   have ho : Oplog.openLog (some (pk, some sk)) [] = .ok ⟨{ bits := ih.1 }, Header.new pk (some sk), ih.2, []⟩ := by
-    simp [Oplog.openLog, Spec.headerSize, Spec.entriesOffset, hih]
+    simp [Oplog.openLog, Oplog.readLog, Spec.headerSize, Spec.entriesOffset, hih]
   have hd1tree : (({} : Disk).applyAll ih.2).tree = File.empty :=
     tree_of_applyAll _ _ (fun op hop => by rw [hops op hop]; decide)
   have hd1data : (({} : Disk).applyAll ih.2).data = File.empty :=
